@@ -112,7 +112,7 @@ def run(ctx):
                          "group_size None or a divisor; distinct = (F,bits,axis,group,shape,data hash); non-trivial = any non-'mixed' row class or grouped")
     lines, outs = run_cases(ctx, witness_cases(), "corpus")
     ctx.sample({"line": lines[0][:300], "impl": outs[0][:300]})
-    n = 600 if not ctx.thorough else 10000
+    n = 600 if not ctx.thorough else 30000
     lines, outs = run_cases(ctx, gen(ctx, n))
     ctx.sample({"line": lines[-1][:300], "impl": outs[-1][:300]})
     # S4: replay the witnesses of the listed findings on the implementation
